@@ -16,8 +16,30 @@ FORBIDDEN = re.compile(r'\b(Admitted|admit|Axiom|Axioms|Parameter|Parameters|Con
 ALLOWED_ASSUMPTION = re.compile(r'^(PrimFloat\.|Uint63\.|PrimInt63\.|FloatOps\.|SpecFloat\.|float\b|int\b|Coq\.(Floats|Numbers\.Cyclic\.Int63)\.)')
 
 
+_PRIM_TYPE_TOKENS = re.compile(r'PrimInt63\.int|PrimFloat\.float|float_class|float|comparison|int|bool|Set|->|\*|\(|\)|\s')
+
+
+def is_kernel_primitive(name, ty):
+    """Print Assumptions lists the kernel's primitive float / 63-bit integer operations a term uses as
+    if they were axioms.  They are recognised by name AND by a type built only from the primitive types."""
+    base = name.split('.')[-1]
+    prims = {'float', 'int', 'add', 'sub', 'mul', 'div', 'opp', 'abs', 'sqrt', 'eqb', 'ltb', 'leb', 'compare', 'classify',
+             'of_uint63', 'normfr_mantissa', 'frshiftexp', 'ldshiftexp', 'next_up', 'next_down',
+             'lsl', 'lsr', 'land', 'lor', 'lxor', 'mod', 'addc', 'subc', 'mulc', 'head0', 'tail0', 'les', 'lts', 'asr', 'divs', 'mods',
+             'addcarryc', 'subcarryc', 'diveucl', 'diveucl_21', 'addmuldiv', 'compares'}
+    return base in prims and _PRIM_TYPE_TOKENS.sub('', ty) == ''
+
+
 def log(*a):
     print(*a, flush=True)
+
+
+_T0 = time.time()
+
+
+def dbg(*a):
+    if os.environ.get('VERIF_DEBUG'):
+        print('[%.1fs]' % (time.time() - _T0), *a, file=sys.stderr, flush=True)
 
 
 class Lock:
@@ -122,8 +144,9 @@ def proof_gate(prop):
         if b.startswith('Closed under'):
             discharged += 1 if name in theorems else 0
             continue
-        names = re.findall(r'(?m)^([A-Za-z_][A-Za-z0-9_.\']*)\s*:', b[len('Axioms:'):])
-        notallowed = [n for n in names if not ALLOWED_ASSUMPTION.match(n) and n not in prop.get('allowed_axioms', [])]
+        entries = re.findall(r"(?ms)^([A-Za-z_][A-Za-z0-9_.']*)\s*:\s*(.*?)(?=^[A-Za-z_][A-Za-z0-9_.']*\s*:|\Z)", b[len('Axioms:'):].lstrip('\n'))
+        names = [n for n, _ in entries]
+        notallowed = [n for n, ty in entries if not is_kernel_primitive(n, ty) and n not in prop.get('allowed_axioms', [])]
         used.update(names)
         if notallowed:
             problems.append('theorem %s depends on %s' % (name, ', '.join(notallowed)))
@@ -361,7 +384,7 @@ def tree_size(t):
     return 1 if isinstance(t, int) else 1 + sum(tree_size(c) for c in t)
 
 
-def shrink(prop, judge_fn, inp, obs, want, rounds=12):
+def shrink(prop, judge_fn, inp, obs, want, rounds=8):
     """delta-debug the input while the verdict stays `want`; judge_fn(inputs)->(obs list, verdict list)"""
     best, best_obs = inp, obs
     for _ in range(rounds):
@@ -455,16 +478,18 @@ def base_trusted(prop):
 def judge_inputs(prop, inputs, tag):
     """run impl + model on inputs; returns (obs list, verdict list) - verdict None for invalid input"""
     pid = prop['id']
+    dbg('judge_inputs', tag, len(inputs))
     obs, valid = run_inputs(pid, inputs, tag=tag)
+    dbg('  impl done')
     idx = [i for i in range(len(inputs)) if valid[i] and obs[i] is not None]
     cases = [[inputs[i], obs[i]] for i in idx]
     res = run_coq_batch(pid, prop['corr'], prop.get('judge', 'judge_all'), cases, tag) if cases else []
+    dbg('  coq done')
     verdicts = [None] * len(inputs)
     for i, r in zip(idx, res):
         verdicts[i] = r
-    if prop.get('post'):
-        for i in idx:
-            verdicts[i] = prop['post'](inputs[i], obs[i], verdicts[i])
+    if prop.get('post_batch'):
+        prop['post_batch'](inputs, obs, verdicts)
     return obs, verdicts
 
 
@@ -543,7 +568,11 @@ def decide(prop, tier, seed, t0):
         for i in fails:
             key = prop['classify'](inputs[i], obs[i]) if prop.get('classify') else 'fail'
             groups.setdefault(key, []).append(i)
-        for key, idxs in sorted(groups.items(), key=lambda kv: str(kv[0])):
+        MAXREP = 6
+        ordered = sorted(groups.items(), key=lambda kv: (min(tree_size(inputs[i]) for i in kv[1]), str(kv[0])))
+        if len(ordered) > MAXREP:
+            log('note: %d distinct failure classes; reporting the %d with the smallest inputs' % (len(ordered), MAXREP))
+        for key, idxs in ordered[:MAXREP]:
             i = min(idxs, key=lambda i: tree_size(inputs[i]))
             inp, ob = inputs[i], obs[i]
             if not prop.get('no_shrink'):
